@@ -82,7 +82,8 @@ class EigStub(symnp.LinalgProxy):
 
 
 def make_phonopy():
-    ph = geometries.phonopy_obj("cscl", "211")
+    # a non-default unit conversion factor: every access path must report frequencies in the object's own unit
+    ph = geometries.phonopy_obj("cscl", "211", factor=123.456)
     rng = np.random.default_rng(4)
     n = len(ph.supercell)
     ph.force_constants = rng.uniform(-1, 1, (n, n, 3, 3))
@@ -326,6 +327,32 @@ def replay_qpoints(with_e, with_d, omp, sub):
         bool(with_e), bool(with_d), "OpenMP" if omp else "serial", dev)
 
 
+@symnp.outside_session
+def replay_mesh(kind):
+    """concrete: frequencies of a stored / iterated mesh == sign(l) sqrt|l| * the object's factor for the eigenvalues of D(q)"""
+    ctx = harness.setup()
+    from engine import bridge as _b
+    br = _b.Bridge(ctx.shim, ctx.ir); br.install()
+    try:
+        ph = geometries.phonopy_obj("cscl", "211", factor=123.456)
+        rng = np.random.default_rng(4); n = len(ph.supercell)
+        F = rng.uniform(-1, 1, (n, n, 3, 3)); F = (F + np.transpose(F, (1, 0, 3, 2))) / 2
+        ph.force_constants = F
+        if kind == "mesh":
+            ph.run_mesh([2, 1, 1], with_eigenvectors=True, is_mesh_symmetry=False)
+            d = ph.get_mesh_dict(); qpts, freqs = d["qpoints"], d["frequencies"]
+        else:
+            ph.init_mesh([2, 1, 1], with_eigenvectors=True, is_mesh_symmetry=False, use_iter_mesh=True)
+            freqs = [f for f, e in ph.mesh]; qpts = ph.mesh.qpoints
+        worst = 0.0
+        for q, f in zip(qpts, freqs):
+            ph.dynamical_matrix.run(np.array(q)); w = np.linalg.eigvalsh(ph.dynamical_matrix.dynamical_matrix).real
+            worst = max(worst, float(np.abs(np.asarray(f) - np.sqrt(np.abs(w)) * np.sign(w) * 123.456).max()))
+    finally:
+        br.uninstall()
+    return worst > 1e-8, "%s frequencies differ from sign(l) sqrt|l| x the object's unit conversion factor by %.3g" % (kind, worst)
+
+
 def mesh_unit(u, res):
     kind, with_e, omp = u
     ph = make_phonopy()
@@ -344,7 +371,7 @@ def mesh_unit(u, res):
     key0 = "%s:%s:e%d:omp%d" % (PID, kind, with_e, omp)
     for i, q in enumerate(qpts):
         Dq = Dsym(q, nb); mid = mat_id(Dq); ev = EigStub.vals(mid, nb)
-        eq_terms(res, "%s frequencies at grid point %d come from the computed D(q)" % (kind, i), list(freqs[i]), list(np.sqrt(np.abs(ev)) * np.sign(ev) * ph._factor), key0 + ":freq")
+        eq_terms(res, "%s frequencies at grid point %d come from the computed D(q)" % (kind, i), list(freqs[i]), list(np.sqrt(np.abs(ev)) * np.sign(ev) * ph._factor), key0 + ":freq", lambda: replay_mesh(kind))
         if with_e:
             Vw = [x for r in range(nb) for c in range(nb) for x in (SR(z3.Real("V_%s_%d_%d_re" % (mid, r, c))), SR(z3.Real("V_%s_%d_%d_im" % (mid, r, c))))]
             eq_terms(res, "%s eigenvectors at grid point %d are the eigensolver output for the computed D(q)" % (kind, i), flat_c(eigs[i]), Vw, key0 + ":eigvec")
